@@ -119,6 +119,13 @@ fn tagged(label: Option<String>) -> impl CustomDirective {
     Nop
 }
 
+/// Registered only in the SECOND schema variant: a custom field directive that happens to be called
+/// `ifdef` — the name `FieldsOnCorrectType` still special-cases (fields_on_correct_type.rs:28-32).
+#[Directive(location = "Field")]
+fn ifdef() -> impl CustomDirective {
+    Nop
+}
+
 // ------------------------------------------------------------------ schema description read from the real registry
 
 #[derive(Clone, Debug, PartialEq)]
